@@ -30,6 +30,11 @@ class Truth:
             path_private = any(seg.startswith("_") for seg in (m["pkg"][1:] + [m["name"]]))
             for f in m["functions"]:
                 self.add(f"{m['qname']}.{f['name']}", "fun", f, m, None, path_private)
+            if m.get("overload_fn"):
+                spec = {"kind": "function", "name": "zz_overloaded", "method_kind": None, "is_property": False, "ret": None,
+                        "returns": None, "doc": "", "result_doc": "", "result_doc_type": None, "synthetic": True,
+                        "params": [{"name": "v", "kind": "POSITION_OR_NAME", "ann": None, "default": None, "doc": "", "doc_type": None}]}
+                self.add(f"{m['qname']}.zz_overloaded", "fun", spec, m, None, path_private)
             for e in m["enums"]:
                 self.add(f"{m['qname']}.{e['name']}", "enum", e, m, None, path_private)
                 for mem in e["members"]:
@@ -68,6 +73,14 @@ class Truth:
                 seen.add(a["name"])
         for f in c["methods"]:
             self.add(f"{q}.{f['name']}", "prop" if f["is_property"] else "fun", f, m, c, path_private)
+        # overloaded methods rendered from the class's `extras` (one implementation each)
+        for flag, prefix, kind in (("overload", "ov_", "instance"), ("overload_static", "ovs_", "static")):
+            if c.get("extras", {}).get(flag):
+                n = prefix + c["name"].strip("_")
+                spec = {"kind": "function", "name": n, "method_kind": kind, "is_property": False, "ret": None, "returns": None,
+                        "doc": "", "result_doc": "", "result_doc_type": None, "synthetic": True,
+                        "params": [{"name": "v", "kind": "POSITION_OR_NAME", "ann": None, "default": None, "doc": "", "doc_type": None}]}
+                self.add(f"{q}.{n}", "fun", spec, m, c, path_private)
         if c["init"] is not None:
             self.add(f"{q}.__init__", "ctor", c["init"], m, c, path_private)
         for k in c["classes"]:
@@ -92,6 +105,22 @@ class Truth:
         """`self.x = v` (no annotation) in a constructor for an x some ancestor defines: not a new attribute"""
         return bool(d.get("inst")) and d["spec"].get("ann") is None and d["owner"] is not None \
             and d["spec"]["name"] in self.ancestor_attr_names(d["owner"])
+
+    def alias_suffix_victim(self, d) -> bool:
+        """the declaration (or its top-level owner) is re-exported by a package whose __init__ also re-exports, under an
+        ALIAS, something whose name merely ENDS with this name: the tool then renames this declaration to the alias too
+        (known finding K10-alias-suffix-match) and one of the two stubs is lost"""
+        mq = d["module"]["qname"]
+        top = d["q"][len(mq) + 1:].split(".")[0]
+        for p, entries in self.pkg["inits"].items():
+            aliased = [e for e in entries if e["form"] == "name" and e["alias"]]
+            if not aliased:
+                continue
+            reexports_it = any((e["form"] == "star" and e["module"] == mq) or
+                               (e["form"] == "name" and e["module"] == mq and e["name"] == top) for e in entries)
+            if reexports_it and any(e["name"].endswith(top) and not (e["module"] == mq and e["name"] == top) for e in aliased):
+                return True
+        return False
 
     def touched_by_reexport(self, d) -> bool:
         """is the declaration (or something enclosing it) mentioned by any __init__ re-export?"""
@@ -336,7 +365,8 @@ def check_all(prop: str, pkg, opts, res) -> list:
                     if d["kind"] == "attr" and d["spec"].get("ann") is None and "value" in d["spec"] and False:
                         continue
                     if len(found) == 0:
-                        fail("C03", f"public {d['kind']} {q} is missing from the stubs", decl=q, kind=d["kind"])
+                        fail("C03", f"public {d['kind']} {q} is missing from the stubs", decl=q, kind=d["kind"],
+                             alias_suffix_victim=truth.alias_suffix_victim(d))
                     elif len(found) > 1:
                         fail("C03", f"public {d['kind']} {q} appears {len(found)} times", decl=q,
                              paths=[p for (_, p), _ in found])
@@ -372,6 +402,8 @@ def check_all(prop: str, pkg, opts, res) -> list:
                 continue
             if d["kind"] in ("fun", "ctor"):
                 f = d["spec"]
+                if f.get("synthetic"):
+                    continue          # judged for presence (C03) and inventory (C12) only
                 if d["kind"] == "ctor":
                     owner_q = q[: -len(".__init__")]
                     od = truth.decls[owner_q]
@@ -447,6 +479,10 @@ def check_all(prop: str, pkg, opts, res) -> list:
                         if decl.doc and mark in decl.doc and decl.pyname != own_name:
                             fail("C13", f"description of {q} appears in the comment of {decl.pyname!r}", decl=q, path=path)
 
+    # ---------------- C17: members of private ancestors, sub clause
+    if prop == "C17":
+        check_inheritance(fail, truth, stubs, safe, excluded)
+
     # ---------------- C10 / C11 on the parsed files
     if prop == "C10":
         for path, sf in stubs.parsed.items():
@@ -465,6 +501,81 @@ def check_all(prop: str, pkg, opts, res) -> list:
     if prop == "C12" and api is not None:
         check_inventory(fail, truth, api, excluded)
     return fails
+
+
+def check_inheritance(fail, truth: Truth, stubs: Stubs, safe, excluded):
+    """C17 on real packages: a public class shows every public-named method of its private ancestors exactly once
+    (own definitions first, nearer ancestors before farther ones); the sub clause names the non-private bases in order"""
+    for q, d in truth.decls.items():
+        if d["kind"] != "class" or d["module"]["qname"] in excluded or not truth.plainly_public(d):
+            continue
+        c = d["spec"]
+        if not c["bases"]:
+            continue
+        found = [x for loc in dict.fromkeys(locations(truth, d)) for x in stubs.decls.get(loc, [])]
+        if len(found) != 1:
+            continue
+        decl, path = found[0]
+        # private ancestors in the order the tool inlines them; a class reached twice is a diamond (K17)
+        order, seen_q, diamond, unresolved = [], set(), False, False
+
+        def visit(spec):
+            nonlocal diamond, unresolved
+            for (bn, bq) in spec["bases"]:
+                if not bn.startswith("_"):
+                    continue
+                if bq in seen_q:
+                    diamond = True
+                    continue
+                seen_q.add(bq)
+                bd = truth.decls.get(bq)
+                if bd is None or bd["module"]["qname"] in excluded:
+                    unresolved = True
+                    continue
+                order.append(bd["spec"])
+                visit(bd["spec"])
+        visit(c)
+        if unresolved:
+            continue
+        own = {a["name"] for a in c["attrs"] + c["inst_attrs"]} | {f["name"] for f in c["methods"]} | {k["name"] for k in c["classes"]}
+        own_emitted = {n for n in own if not is_private_name(n)}
+        expected = []
+        hidden = set(own_emitted)
+        for anc in order:
+            for f in anc["methods"]:
+                if f["name"].startswith("_") or f["name"] in hidden:
+                    continue
+                expected.append(f["name"])
+                hidden.add(f["name"])
+            # overloads rendered from extras
+            for flag, prefix in (("overload", "ov_"), ("overload_static", "ovs_")):
+                if anc.get("extras", {}).get(flag):
+                    n = prefix + anc["name"].strip("_")
+                    if n not in hidden:
+                        expected.append(n)
+                        hidden.add(n)
+        members = [m for m in decl.members if m.kind in ("fun", "attr")]
+        counts = {}
+        for m in members:
+            counts[m.pyname] = counts.get(m.pyname, 0) + 1
+        for n in expected:
+            k = counts.get(n, 0)
+            if k != 1:
+                fail("C17", f"class {q}: method {n!r} of a private ancestor appears {k} times in its stub", decl=q, member=n,
+                     private_diamond=diamond, path=path)
+        for n, k in counts.items():
+            if k > 1 and n not in expected and n in {f["name"] for a in order for f in a["methods"]}:
+                fail("C17", f"class {q}: member {n!r} appears {k} times although the class defines it itself", decl=q, member=n,
+                     private_diamond=diamond, path=path)
+        want_supers = [conv(bn, safe, True) for (bn, bq) in c["bases"] if not bn.startswith("_")]
+        got_supers = [stubparse.render_type(s_).split(".")[-1].strip("`") for s_ in decl.supers]
+        if c.get("extras", {}).get("seq_base"):
+            continue
+        # the sub clause is not converted like declarations are (naming is C09's business): compare up to case/underscores
+        norm = lambda xs: [x.replace("_", "").lower() for x in xs]
+        if norm(got_supers) != norm(want_supers):
+            fail("C17", f"class {q}: sub clause {got_supers}, the non-private base classes are {want_supers}", decl=q, path=path,
+                 private_diamond=diamond)
 
 
 def walk_decls(sf):
@@ -562,6 +673,23 @@ def check_type_sources(fail, q, f, decl, safe, opts, is_ctor, warnings):
         rdt = f.get("result_doc_type") if documented else None
         doc = expected_api_type(rdt[0]) if rdt else None
         ret = f["ret"]
+        if ret is not None and ret[0] == "tuple" and f.get("result_docs") and style == "numpydoc":
+            # one named entry per component: the docstring type of an entry applies to the result at ITS position
+            comps = list(ret[1:])
+            entries = f["result_docs"]
+            if len(decl.results) == len(comps) == len(entries):
+                for i, (comp, e, (rn, rt)) in enumerate(zip(comps, entries, decl.results)):
+                    hint = expected_api_type(comp)
+                    doc = expected_api_type(e["type"]) if e["type"] is not None else None
+                    fallback = doc is None          # griffe fills in the component of the signature's tuple
+                    expected = hint if fallback else (doc if pref_doc else hint)
+                    want = canon_or_none(type_text(expected, safe))
+                    gt = stubparse.render_type(rt)
+                    if want is not None and gt != want:
+                        fail("C14", f"{q}: result {i + 1} has type {gt!r}; expected {want!r} (preference {opts.get('tsp', 'CODE')}, "
+                                    f"docstring entry {e['kind']})", decl=q, position=i + 1, signature_fallback=fallback,
+                             entries=[x["kind"] for x in entries])
+            return
         if ret is not None and (ret == ("None",) or ret[0] == "tuple"):
             return
         if ret is None and f["returns"] is not None:
@@ -775,11 +903,22 @@ def check_refs(fail, stubs: Stubs, safe, truth: Truth = None):
             for c in m["classes"]:
                 walk(c)
 
+    # every declaration name that some __init__ re-exports in any form (by name, through a wildcard, or because
+    # its whole module is re-exported)
+    all_moved = set()
+    for names in moved_names.values():
+        all_moved |= names
+    if pkg is not None:
+        for m in pkg["modules"]:
+            if m["qname"] in reexported_modules:
+                all_moved |= {x["name"] for x in m["classes"] + m["functions"]}
+
     def facts(path, name, frm=None, pymodule=None):
         segs = (frm or "").split(".")
         return {"path": path, "name": name, "private_class": name.lstrip("`").startswith("_"),
                 # the name is that of a declaration of this very module which an __init__ moved to another package
                 "refers_to_moved_sibling": name in moved_names.get(pymodule, set()) or name in moved_names.get(frm, set()),
+                "refers_to_reexported_declaration": name in all_moved,
                 "private_path": any(x.lstrip("`").startswith("_") for x in segs[1:]),
                 "module_reexported": frm in reexported_modules if frm else False,
                 "reexport_stub": path in reexport_stub_paths or any(path.startswith(q.replace(".", "/").rsplit("/", 1)[0] + "/")
